@@ -228,3 +228,19 @@ Theorem C10_unlambda_method_value_refuted :
   exists c st1 st2, unlambda_flags c = true /\ callee_eval st1 c <> callee_eval st2 c.
 Proof. exact unlambda_method_value_refuted. Qed.
 Print Assumptions C10_unlambda_method_value_refuted.
+
+(* redundantSprint (Stringer rule): sound only when the operand is neither a Formatter nor an error *)
+Theorem C10_redundant_sprint_preserves_partial : forall o s,
+  fo_format o = None -> fo_error o = None -> fo_string o = Some s -> fmt_sprint o = s.
+Proof. exact redundant_sprint_preserves_partial. Qed.
+Print Assumptions C10_redundant_sprint_preserves_partial.
+
+Theorem C10_redundant_sprint_error_refuted :
+  exists o s, fo_format o = None /\ fo_string o = Some s /\ fmt_sprint o <> s.
+Proof. exact redundant_sprint_error_refuted. Qed.
+Print Assumptions C10_redundant_sprint_error_refuted.
+
+Theorem C10_redundant_sprint_formatter_refuted :
+  exists o s, fo_error o = None /\ fo_string o = Some s /\ fmt_sprint o <> s.
+Proof. exact redundant_sprint_formatter_refuted. Qed.
+Print Assumptions C10_redundant_sprint_formatter_refuted.
